@@ -7,8 +7,11 @@ tier = "quick"
 args = sys.argv[1:]
 if "--tier" in args:
     i = args.index("--tier"); tier = args[i + 1]; del args[i:i + 2]
+prop_override = None
+if "--prop" in args:
+    i = args.index("--prop"); prop_override = args[i + 1]; del args[i:i + 2]
 for sid in args:
-    d = os.path.join(V, "seeded", sid); prop = sid.split("-")[0]
+    d = os.path.join(V, "seeded", sid); prop = prop_override or sid.split("-")[0]
     wt = "/tmp/sr/%s" % sid
     subprocess.run("git -C /repo worktree remove --force %s 2>/dev/null; rm -rf %s; mkdir -p /tmp/sr && git -C /repo worktree add -q --detach %s HEAD" % (wt, wt, wt), shell=True)
     r = subprocess.run("git -C %s apply %s/patch.diff" % (wt, d), shell=True, capture_output=True, text=True)
@@ -25,8 +28,12 @@ for sid in args:
     viol = sorted({l.split(" -- ")[0].replace("  violated: ", "") for l in out.splitlines() if l.startswith("  violated:")})
     herr = [l[:300] for l in out.splitlines() if l.startswith("HARNESS-ERROR")][:3]
     m = json.load(open(d + "/meta.json"))
-    m.setdefault("check_runs", {})[tier] = {"exit": rc, "violated_obligations": viol, "harness_errors": herr, "wall_s": round(time.time() - t0, 1),
+    m.setdefault("check_runs", {})[tier if not prop_override else "%s:%s" % (prop, tier)] = {"exit": rc, "violated_obligations": viol, "harness_errors": herr, "wall_s": round(time.time() - t0, 1),
                                              "cmd": "git worktree add <wt>; git -C <wt> apply seeded/%s/patch.diff; VK_REPO=<wt> ./vcheck %s --tier %s" % (sid, prop, tier)}
-    m["caught"] = (rc == 1)
+    m["caught"] = bool(m.get("caught")) or (rc == 1)
+    if rc == 1:
+        m.setdefault("caught_by", [])
+        if prop not in m["caught_by"]:
+            m["caught_by"].append(prop)
     json.dump(m, open(d + "/meta.json", "w"), indent=1)
     print(sid, "exit", rc, "caught" if rc == 1 else "MISSED" if rc == 0 else "HARNESS-ERROR", viol[:4], herr[:1])
